@@ -140,6 +140,17 @@ func Load(opt Options) (*Program, error) {
 	}
 	if opt.Module == "" {
 		p.resolveRenames()
+		// helper functions that did not exist on the confirmed tree are spliced into their callers' paths
+		paths.Inlineable = func(g *ssa.Function) bool {
+			if g == nil || !p.inMod[g] || g.Synthetic != "" || g.Parent() != nil || g.Origin() != nil || len(g.Blocks) == 0 {
+				return false
+			}
+			if g.Object() != nil && g.Object().Exported() {
+				return false
+			}
+			_, frozen := FrozenAnchors[paths.FuncName(g)]
+			return !frozen
+		}
 	}
 	for f := range p.inMod {
 		p.byName[ShortName(f)] = f
